@@ -1608,4 +1608,224 @@ theorem fwd_kept_step {s : NS} (hr : RInv s) {f : Nat} {name : String} {u : UdpS
   have := (hr.deliver_open hf hu).2
   exact ((hr.step l).udp_fwd h1 (by rw [h2, this])).2
 
+/-! ### `send_to`: the decision table -/
+
+/-- the packets a list of effects hands to `forward_packet`, in order -/
+def fwdsOf (e : List NEff) : List Pkt :=
+  e.filterMap (fun x => match x with | .forward p => some p | _ => none)
+
+theorem fwdsOf_append (a b : List NEff) : fwdsOf (a ++ b) = fwdsOf a ++ fwdsOf b := by
+  simp [fwdsOf, List.filterMap_append]
+
+theorem fwdsOf_abortSend (name : String) (u : UdpSock) : fwdsOf (u.abortSend name).2 = [] := by
+  unfold UdpSock.abortSend
+  cases u.waitSendH <;> simp [fwdsOf]
+
+theorem fwdsOf_pcap (b : Bool) (now : Int) (src dst : Ep) (payload : List UInt8) :
+    fwdsOf (if b then [NEff.pcapUdp now src dst payload] else []) = [] := by
+  cases b <;> simp [fwdsOf]
+
+/-- the datagram `send_to` builds -/
+def sendPkt (src : Ep) (hops : List String) (payload : List UInt8) : Pkt :=
+  { id := 0, ty := .payload, len := payload.length, ovh := 28, hops := hops, src := src.toString, payload := payload }
+
+section tail
+variable (n : NetSt) (e0 : List NEff) (now : Int) (name : String) (dst : Ep) (payload : List UInt8) (u : UdpSock)
+  (hu : n.udp? name = some u)
+include hu
+
+theorem udpSendTail_invalid (h0 : payload.length = 0) :
+    n.udpSendTail e0 .ok now name dst payload = (n, e0, .invalid, 0) := by
+  unfold NetSt.udpSendTail; simp [hu, h0]
+
+theorem udpSendTail_msgSize (h1 : payload.length > 65535) :
+    n.udpSendTail e0 .ok now name dst payload = (n, e0, .msgSize, 0) := by
+  have h0 : payload.length ≠ 0 := by omega
+  unfold NetSt.udpSendTail; simp [hu, h0, h1]
+
+theorem udpSendTail_dfDrop (h0 : payload.length ≠ 0) (h1 : payload.length ≤ 65535)
+    (h2 : u.df = true) (h3 : payload.length > n.cfg.pathMtu u.bound.addr dst.addr) :
+    n.udpSendTail e0 .ok now name dst payload = (n, e0, .ok, payload.length) := by
+  have h1' : ¬ payload.length > 65535 := by omega
+  unfold NetSt.udpSendTail; simp [hu, h0, h1', h2, h3]
+
+theorem udpSendTail_paced (h0 : payload.length ≠ 0) (h1 : payload.length ≤ 65535)
+    (h2 : ¬ (u.df = true ∧ payload.length > n.cfg.pathMtu u.bound.addr dst.addr))
+    (h3 : u.nextSend - now > u.sendQueueTime) :
+    n.udpSendTail e0 .ok now name dst payload = (n, e0, .wouldBlock, 0) := by
+  have h1' : ¬ payload.length > 65535 := by omega
+  have h2' : (u.df && decide (payload.length > n.cfg.pathMtu u.bound.addr dst.addr)) = false := by
+    cases hd : u.df <;> simp_all
+  unfold NetSt.udpSendTail; simp only [hu]; simp [h0, h1', h2', h3]
+
+theorem udpSendTail_noRoute (h0 : payload.length ≠ 0) (h1 : payload.length ≤ 65535)
+    (h2 : ¬ (u.df = true ∧ payload.length > n.cfg.pathMtu u.bound.addr dst.addr))
+    (h3 : ¬ u.nextSend - now > u.sendQueueTime) (h4 : n.udpRoute u.bound dst = none) :
+    n.udpSendTail e0 .ok now name dst payload = (n, e0, .ok, payload.length) := by
+  have h1' : ¬ payload.length > 65535 := by omega
+  have h2' : (u.df && decide (payload.length > n.cfg.pathMtu u.bound.addr dst.addr)) = false := by
+    cases hd : u.df <;> simp_all
+  unfold NetSt.udpSendTail; simp only [hu]; simp [h0, h1', h2', h3, h4]
+
+theorem udpSendTail_sent (h0 : payload.length ≠ 0) (h1 : payload.length ≤ 65535)
+    (h2 : ¬ (u.df = true ∧ payload.length > n.cfg.pathMtu u.bound.addr dst.addr))
+    (h3 : ¬ u.nextSend - now > u.sendQueueTime) (hops : List String) (h4 : n.udpRoute u.bound dst = some hops) :
+    n.udpSendTail e0 .ok now name dst payload =
+      (n.setUdp name { u with nextSend := (if now ≤ u.nextSend then u.nextSend else now) + 10 * (payload.length + 28) },
+       e0 ++ (if n.cfg.pcap then [NEff.pcapUdp now u.bound dst payload] else []) ++ [.forward (sendPkt u.bound hops payload)],
+       .ok, payload.length) := by
+  have h1' : ¬ payload.length > 65535 := by omega
+  have h2' : (u.df && decide (payload.length > n.cfg.pathMtu u.bound.addr dst.addr)) = false := by
+    cases hd : u.df <;> simp_all
+  unfold NetSt.udpSendTail; simp only [hu]; simp [h0, h1', h2', h3, h4, sendPkt]
+
+end tail
+
+/-- `send_to` on a bound socket: no implicit bind, straight to the checks -/
+theorem udpSendTo_bound (n : NetSt) (now : Int) (name : String) (dst : Ep) (payload : List UInt8) (u0 : UdpSock)
+    (h : n.udp? name = some u0) (hb : u0.bound.isDefault = false) :
+    n.udpSendTo now name dst payload =
+      (n.setUdp name { u0 with waitSendH := none }).udpSendTail (u0.abortSend name).2 .ok now name dst payload := by
+  rw [udpSendTo_eq n now name dst payload u0 h]; simp [hb]
+
+/-- `send_to` on an unbound socket: implicit `bind(udp::endpoint())` first -/
+theorem udpSendTo_unbound (n : NetSt) (now : Int) (name : String) (dst : Ep) (payload : List UInt8) (u0 : UdpSock)
+    (h : n.udp? name = some u0) (hb : u0.bound.isDefault = true) :
+    n.udpSendTo now name dst payload =
+      ((n.setUdp name { u0 with waitSendH := none }).udpBind name {}).1.udpSendTail (u0.abortSend name).2
+        ((n.setUdp name { u0 with waitSendH := none }).udpBind name {}).2 now name dst payload := by
+  rw [udpSendTo_eq n now name dst payload u0 h]; simp [hb]
+
+theorem udpSendTail_bindFailed (n : NetSt) (e0 : List NEff) (ecb : Ec) (now : Int) (name : String) (dst : Ep)
+    (payload : List UInt8) (h : ecb ≠ .ok) : n.udpSendTail e0 ecb now name dst payload = (n, e0, ecb, 0) := by
+  unfold NetSt.udpSendTail; simp [h]
+
+/-- everything `send_to_impl` can return, and what it forwards -/
+theorem udpSendTail_total (n : NetSt) (e0 : List NEff) (ecb : Ec) (now : Int) (name : String) (dst : Ep)
+    (payload : List UInt8) :
+    ((n.udpSendTail e0 ecb now name dst payload).2.1 = e0
+      ∧ ((ecb ≠ .ok ∧ (n.udpSendTail e0 ecb now name dst payload).2.2 = (ecb, 0))
+         ∨ (n.udpSendTail e0 ecb now name dst payload).2.2 = (.other, 0)
+         ∨ (n.udpSendTail e0 ecb now name dst payload).2.2 = (.invalid, 0)
+         ∨ (n.udpSendTail e0 ecb now name dst payload).2.2 = (.msgSize, 0)
+         ∨ (n.udpSendTail e0 ecb now name dst payload).2.2 = (.wouldBlock, 0)
+         ∨ (n.udpSendTail e0 ecb now name dst payload).2.2 = (.ok, payload.length)))
+    ∨ (∃ u hops, n.udp? name = some u ∧ ecb = .ok ∧ 0 < payload.length ∧ payload.length ≤ 65535
+        ∧ n.udpRoute u.bound dst = some hops
+        ∧ (n.udpSendTail e0 ecb now name dst payload).2 =
+            (e0 ++ (if n.cfg.pcap then [NEff.pcapUdp now u.bound dst payload] else [])
+               ++ [.forward (sendPkt u.bound hops payload)], .ok, payload.length)) := by
+  by_cases hecb : ecb = .ok
+  · subst hecb
+    cases hu : n.udp? name with
+    | none => left; unfold NetSt.udpSendTail; simp [hu]
+    | some u =>
+      by_cases h0 : payload.length = 0
+      · left; rw [udpSendTail_invalid n e0 now name dst payload u hu h0]; simp
+      · by_cases h1 : payload.length > 65535
+        · left; rw [udpSendTail_msgSize n e0 now name dst payload u hu h1]; simp
+        · have h1' : payload.length ≤ 65535 := by omega
+          by_cases h2 : u.df = true ∧ payload.length > n.cfg.pathMtu u.bound.addr dst.addr
+          · left; rw [udpSendTail_dfDrop n e0 now name dst payload u hu h0 h1' h2.1 h2.2]; simp
+          · by_cases h3 : u.nextSend - now > u.sendQueueTime
+            · left; rw [udpSendTail_paced n e0 now name dst payload u hu h0 h1' h2 h3]; simp
+            · cases h4 : n.udpRoute u.bound dst with
+              | none => left; rw [udpSendTail_noRoute n e0 now name dst payload u hu h0 h1' h2 h3 h4]; simp
+              | some hops =>
+                right
+                refine ⟨u, hops, rfl, rfl, by omega, h1', h4, ?_⟩
+                rw [udpSendTail_sent n e0 now name dst payload u hu h0 h1' h2 h3 hops h4]
+  · left; rw [udpSendTail_bindFailed n e0 ecb now name dst payload hecb]
+    exact ⟨rfl, Or.inl ⟨hecb, rfl⟩⟩
+
+/-- `find_udp_socket` finds no route exactly when nothing is bound at the destination, or the
+    registered socket object does not exist (excluded by the registry invariant) -/
+theorem udpRoute_none_iff (n : NetSt) (src dst : Ep) :
+    n.udpRoute src dst = none ↔
+      n.reg.udp.lookup dst = none ∨ ∃ tgt, n.reg.udp.lookup dst = some tgt ∧ n.udp? tgt = none := by
+  unfold NetSt.udpRoute
+  cases hl : n.reg.udp.lookup dst with
+  | none => simp
+  | some tgt =>
+    cases ht : n.udp? tgt with
+    | none => simp [ht]
+    | some t => simp [ht]
+
+theorem udpRoute_some (n : NetSt) (src dst : Ep) (tgt : String) (t : UdpSock)
+    (hl : n.reg.udp.lookup dst = some tgt) (ht : n.udp? tgt = some t) :
+    n.udpRoute src dst = some (n.cfg.outRoute src.addr ++ n.cfg.netRoute src.addr dst.addr
+      ++ n.incomingRoute t.bound t.fwd) := by
+  unfold NetSt.udpRoute; simp [hl, ht]
+
+/-- under the registry invariant the registered socket exists, is open, bound to exactly that
+    endpoint, and holds an attached forwarder -/
+theorem RInv.reg_target {s : NS} (h : RInv s) {dst : Ep} {tgt : String}
+    (hl : s.n.reg.udp.lookup dst = some tgt) :
+    ∃ t f, s.n.udp? tgt = some t ∧ t.isOpen = true ∧ t.bound = dst ∧ t.fwd = some f
+      ∧ s.n.fwdTarget f = some tgt := by
+  have hm := mem_of_lookup_some _ _ _ hl
+  have hs := (h.udp.sound dst tgt hm).1
+  unfold NetSt.ub at hs
+  cases ht : s.n.udp? tgt with
+  | none => simp [ht] at hs
+  | some t =>
+    simp [ht] at hs
+    have ho := h.fwd.openU tgt t.isOpen t.fwd (by simp [NetSt.uf, ht])
+    rw [hs.1] at ho
+    cases hf : t.fwd with
+    | none => simp [hf] at ho
+    | some f => exact ⟨t, f, rfl, hs.1, hs.2, hf, (h.udp_fwd ht hf).2⟩
+
+/-! ### close, destroy, re-open: the forwarder is detached -/
+
+theorem close_like_detaches {s : NS} (hr : RInv s) {name : String} {u : UdpSock} {f : Nat}
+    (hu : s.n.udp? name = some u) (hf : u.fwd = some f) (l : NLbl)
+    (hl : l = .uClose name ∨ l = .uDestroy name ∨ ∃ v4, l = .uOpen name v4) :
+    (s.step l).n.fwdTarget f = none ∧ f < (s.step l).n.fwds.length := by
+  have hlt := hr.udp_fwd_lt hu hf
+  rcases hl with e | e | ⟨v4, e⟩ <;> subst e
+  · show (s.n.udpClose name).1.fwdTarget f = none ∧ f < (s.n.udpClose name).1.fwds.length
+    rw [udpClose_fwdTarget, udpClose_fwds_length]; simp [hu, hf, hlt]
+  · show (s.n.udpDestroy name).1.fwdTarget f = none ∧ f < (s.n.udpDestroy name).1.fwds.length
+    rw [udpDestroy_fwdTarget, udpDestroy_fwds_length, udpClose_fwdTarget]; simp [hu, hf, hlt]
+  · show (s.n.udpOpen name v4).1.fwdTarget f = none ∧ f < (s.n.udpOpen name v4).1.fwds.length
+    rw [udpOpen_fwdTarget, udpOpen_fwds_length, udpClose_fwdTarget]
+    have : f ≠ s.n.fwds.length := by omega
+    simp [hu, hf, this]; omega
+
+/-! ### the ghost logs only ever grow (move construction carries them to the new object) -/
+
+theorem logs_append_only (s : NS) (l : NLbl) (hm : ∀ a b, l ≠ .uMove a b) (x : String) :
+    (∃ e, (s.step l).acc x = s.acc x ++ e) ∧ (∃ e, (s.step l).out x = s.out x ++ e) := by
+  have triv : (∃ e, s.acc x = s.acc x ++ e) ∧ (∃ e, s.out x = s.out x ++ e) := ⟨⟨[], by simp⟩, ⟨[], by simp⟩⟩
+  have outS : ∀ (name : String) (ex : List (Pkt × Bool)), ∃ e, setS s.out name (s.out name ++ ex) x = s.out x ++ e := by
+    intro name ex
+    by_cases hx : x = name
+    · subst hx; exact ⟨ex, by simp⟩
+    · exact ⟨[], by simp [setS_other _ _ _ _ hx]⟩
+  by_cases ht : l.isTcp = true
+  · obtain ⟨a, b⟩ := NS.step_tcp_ghost s l ht; rw [a, b]; exact triv
+  cases l <;> try (exact absurd rfl ht)
+  case uMove a b => exact absurd rfl (hm a b)
+  case deliver f p =>
+    cases hf : s.n.fwdTarget f with
+    | none => rw [NS.step_deliver_none s f p hf]; exact triv
+    | some name =>
+      cases hu : s.n.udp? name with
+      | none => rw [NS.step_deliver_tcp s f p name hf hu]; exact triv
+      | some u =>
+        obtain ⟨_, e2, e3, _⟩ := NS.step_deliver_some s f p name u hf hu
+        rw [e2, e3]
+        refine ⟨?_, outS name _⟩
+        split
+        · exact triv.1
+        · by_cases hx : x = name
+          · subst hx; exact ⟨[p], by simp⟩
+          · exact ⟨[], by simp [setS_other _ _ _ _ hx]⟩
+  all_goals (simp only [NS.step, NS.readStep, NS.discardStep])
+  all_goals first
+    | exact triv
+    | exact ⟨triv.1, outS _ _⟩
+    | (split <;> exact triv)
+
 end SimVerif
